@@ -202,6 +202,16 @@ class _GenerateRenderMethod:
 
         self.compiler.namespaces = namespaces
 
+        pagetag = self.compiler.pagetag
+        if pagetag is not None and eval(
+            pagetag.attributes.get("enable_loop", "False")
+        ):
+            # the page re-enables the loop context: the name is reserved
+            self.compiler.enable_loop = True
+            self.compiler.reserved_names = frozenset(
+                self.compiler.reserved_names
+            ).union(["loop"])
+
         module_ident = set()
         for n in module_code:
             module_ident = module_ident.union(n.declared_identifiers())
